@@ -348,10 +348,19 @@ for _pid in ("C03", "C06", "C10", "C12", "C14"):
     _c = dict(_m)
     _c.update({"name": "miri32", "build": "miri32", "as": "miri"})
     PROPS[_pid]["stages"].append(_c)
+# ... and the two graph properties (Tree Borrows, as in their 64-bit interpreter stage)
+for _pid in ("C09", "C16"):
+    _m = [s for s in PROPS[_pid]["stages"] if s["name"] == "miri"][0]
+    _c = dict(_m)
+    _c.update({"name": "miri32", "build": "miri32", "as": "miri", "miriflags": "-Zmiri-tree-borrows"})
+    PROPS[_pid]["stages"].append(_c)
 # C20 (bin / hop / remaining-frames arithmetic in usize) gets an interpreter-sized 32-bit stage of
 # its own. -Zmiri-deterministic-floats: the interpreter otherwise perturbs every cos() by a random
 # ulp, and the monitors compare a Window's values across calls bit for bit.
 PROPS["C20"]["stages"].append({"name": "miri32", "build": "miri32", "bin": "c20", "shards": {"quick": 8, "thorough": 16}, "miriflags": "-Zmiri-deterministic-floats", "timeout": {"quick": 1500, "thorough": 3600}})
+# C04 / C05 (adaptor trees: delay lengths, take counts, exhaustion bookkeeping in usize): lean 32-bit stages
+for _pid, _bin in (("C04", "c04"), ("C05", "c05")):
+    PROPS[_pid]["stages"].append({"name": "miri32", "build": "miri32", "bin": _bin, "shards": {"quick": 8, "thorough": 16}, "timeout": {"quick": 1500, "thorough": 3600}})
 for _pid, _p in PROPS.items():
     if not any(s["build"] == "release" for s in _p["stages"]):
         _main = [s for s in _p["stages"] if s["name"] == "main"][0]
@@ -388,7 +397,9 @@ _M32 = {
     "C15": " A 32-bit build of dasp is executed too (Miri, i686 target): construction / From on boundary and out-of-range backing values and the operators on a 14 x 14 (quick) / 38 x 38 (thorough) value set, all eight types.",
 }
 _M32["C20"] = " A 32-bit build of dasp is executed too (Miri, i686 target): every (L, bin, hop) with L <= 6 (quick) / 9 (thorough), hops around the 8/16/24/31-bit boundaries and the top of the 32-bit range, short Window iterators."
-for _pid in ("C03", "C06", "C10", "C12", "C14"):
+_M32["C04"] = " A 32-bit build of dasp is executed too (Miri, i686 target): every single adaptor with every parameter variant, a seventh of the adaptor pairs and a few random trees, frame types in rotation."
+_M32["C05"] = " A 32-bit build of dasp is executed too (Miri, i686 target): iterator-backed signals of 0..=4 frames, single adaptors over leaves of lengths 0, 1, 3, 6 (thinned), a few random trees."
+for _pid in ("C03", "C06", "C09", "C10", "C12", "C14", "C16"):
     _M32[_pid] = " The interpreter stage runs a second time as a 32-bit build of dasp (Miri, i686 target)."
 for _pid, _t in _M32.items():
     _ADDED[_pid] = _ADDED.get(_pid, "Also:") + _t
